@@ -209,6 +209,9 @@ impl St {
             if let Some(c) = p.objs.arcs[arc] {
                 self.cell_write(t, c, m);
             }
+            if let Some(Some(a)) = p.objs.arc_rmw.get(arc) {
+                self.atomics[*a] = self.atomics[*a].wrapping_add(1);
+            }
             1
         } else {
             0
